@@ -382,7 +382,8 @@ PLANS["C16"] = {
     "rule": "exhaustive: sRGB and gamma-2.2 mappers x forward/backward x 4 depth pairs x 1..4 components x two-image/in-place: every "
             "component value of the source depth at every component position, rows of width 1..9 so that alpha falls on every row position; "
             "oracle: table entry = round(f(v/max_in)*max_out) with f in f64 (a neighbour accepted within 1e-4*max_out of a rounding tie, "
-            "tables are built in f32), monotone, 0->0, max->max, alpha = depth conversion, sRGB 8->16->8 identity; errors: all 169 type "
+            "tables are built in f32), monotone, 0->0, max->max, alpha = depth conversion, sRGB 8->16->8 identity; the two-image mappings also through cropped windows (CroppedImageMut / CroppedImage source at an "
+            "off-diagonal position, CroppedImageMut destination) with identical results and an untouched parent; errors: all 169 type "
             "pairs x mismatched sizes must be rejected with the destination untouched; non-trivial = every combination",
     "assumptions": ["transfer functions as documented in src/color/mappers.rs (sRGB piecewise, gamma 2.2)"],
     "exhaustive": {"quick": True, "thorough": True},
@@ -400,7 +401,8 @@ PLANS["C17"] = {
     "rule": "all 43 supported (source, destination, component count) pairs: integer sources exhaustively (256 / 65 536 values), I32 and F32 "
             "sources with boundary values (min, max, +-0, +-inf, denormals, range ends +- 1 ulp) and 60 000 random values per block; oracle: "
             "monotone non-decreasing on the sorted inputs, nominal endpoints map to nominal endpoints, out-of-range floats saturate, NaN does "
-            "not fail, widen-then-narrow is the identity; errors: all 169 pixel type pairs x mismatched sizes rejected, destination untouched; "
+            "not fail, widen-then-narrow is the identity, the same values in images 1..9 pixels wide (Image and ImageRef sources) and through cropped "
+            "windows (CroppedImageMut / CroppedImage source, CroppedImageMut destination) convert identically; errors: all 169 pixel type pairs x mismatched sizes rejected, destination untouched; "
             "non-trivial = every (pair, block)",
     "assumptions": ["nominal ranges: U8 [0,255], U16 [0,65535], F32 [0,1] against unsigned and [-1,1] against I32, I32 [0,MAX] against unsigned and [MIN,MAX] against F32"],
     "exhaustive": {"quick": False, "thorough": False},
